@@ -38,7 +38,7 @@ W_CONS = {'alloc_put': 30, 'alloc_post': 18, 'reshape': 10, 'alloc_del': 12,
 
 SEQ = {
     'C01': dict(models=['MC_alloc'], weights=W_ALLOC,
-                scenarios=['reshape_moves_class', 'drop_class_in_use'],
+                scenarios=['reshape_moves_class', 'drop_class_in_use', 'joint_overflow'],
                 quick=(36, 45), thorough=(900, 60)),
     'C04': dict(models=['MC_alloc'], weights=W_ALLOC,
                 scenarios=['f9_unknown_provider_new_consumer',
@@ -59,7 +59,7 @@ SEQ = {
     'C11': dict(models=['MC_forest', 'MC_alloc'], weights={}, read_after_write=True,
                 scenarios=['reshape_moves_class', 'consumer_lifecycle',
                            'drop_class_in_use', 'names_lifecycle',
-                           'subtree_moves', 'f7_empty_write_unknown_consumer',
+                           'subtree_moves', 'joint_overflow', 'f7_empty_write_unknown_consumer',
                            'f9_unknown_provider_new_consumer'],
                 quick=(48, 35), thorough=(1500, 50)),
     'C12': dict(models=['MC_alloc'], weights=W_CONS, configs=True,
@@ -84,6 +84,8 @@ CONCUR_MON = {
     'C07': ('C07_Serializable', 'FinalInvariants', 'Escaped'),
     'C10': ('C10_Monotone',),
     'C08': ('C08_FinalRefIntegrity', 'Escaped'),
+    'C04': ('C04_ErrorsNoEffect',),
+    'C09': ('C09_FinalForest',),
 }
 
 FAULT = {
@@ -107,7 +109,7 @@ CAND_MON = {
 
 LEVEL = {p: 'model_checking' for p in list(SEQ) + list(CONCUR) + list(CAND)}
 LEVEL.update({p: 'fault_enumeration' for p in FAULT})
-FUZZ = {'C15': dict(quick=dict(n=9600), thorough=dict(n=300000))}
+FUZZ = {'C15': dict(quick=dict(n=19200), thorough=dict(n=300000))}
 SURFACE = ('C14', 'C16')
 LEVEL.update({p: 'exploration' for p in SURFACE})
 LEVEL.update({p: 'exploration' for p in FUZZ})
@@ -199,6 +201,20 @@ def run_seq(prop, tier, seed, model=True):
             else:
                 violations.append((bad, why, sig))
     extra_cov = {}
+    if prop == 'C04':
+        # a request rejected because it lost a race must not have committed anything either
+        n2 = 0
+        for ck in ('C05', 'C06'):
+            v2, k2, n = concur_supplement('C04', ck, tier, seed)
+            violations.extend(v2)
+            known.extend(k2)
+            n2 += n
+        extra_cov['interleavings_checked_for_rejected_requests_without_effect'] = n2
+    if prop == 'C09':
+        v2, k2, n2 = concur_supplement('C09', 'C09', tier, seed)
+        violations.extend(v2)
+        known.extend(k2)
+        extra_cov['interleavings_of_hierarchy_changes'] = n2
     if prop == 'C08':
         # removals racing with requests that start to use what is removed
         v2, k2, n2 = concur_supplement('C08', 'C08', tier, seed)
@@ -207,9 +223,12 @@ def run_seq(prop, tier, seed, model=True):
         extra_cov['interleavings_of_removals_with_new_uses'] = n2
     if prop == 'C10':
         # generations never decrease: also on every commit of racing requests
-        v2, k2, n2 = concur_supplement('C10', 'C06', tier, seed)
-        violations.extend(v2)
-        known.extend(k2)
+        n2 = 0
+        for ck in ('C06', 'C05'):
+            v2, k2, n = concur_supplement('C10', ck, tier, seed)
+            violations.extend(v2)
+            known.extend(k2)
+            n2 += n
         extra_cov['interleavings_checked_for_monotone_generations'] = n2
     cov = {
         'states': sum(m['states'] for m in models),
